@@ -244,11 +244,20 @@ func init() {
 			if err != nil {
 				return []string{"git-rejects-config"}
 			}
+			// what git itself reports for this repository in the caller's environment (every scope, the
+			// command scope of GIT_CONFIG_COUNT included), asked for without going through GitCommand
+			ic := exec.Command(gitBin, "config", "--list", "-z")
+			ic.Env = append(os.Environ(), "GIT_DIR="+gitDir)
+			ic.Dir = dir
+			indep, ierr := ic.Output()
+			if ierr != nil {
+				return []string{"git-rejects-config"}
+			}
 			cfg, err := repo.GetConfig(string(unhx(in[3])))
 			if err != nil {
-				return []string{"err", hx(listing)}
+				return []string{"err", hx(listing), hx(indep)}
 			}
-			return []string{"ok", hx(listing), encCfg(cfg.Entries)}
+			return []string{"ok", hx(listing), encCfg(cfg.Entries), hx(indep)}
 		},
 		class: func(in, res []string) string { return res[0] },
 	})
